@@ -25,16 +25,16 @@ def plan(tier, seed):
     maxlen = 7 if tier == "quick" else 9
     for i in range(16):
         specs.append(("alphabet", maxlen, i, 16))
-    nrand = 30000 if tier == "quick" else 300000
+    nrand = 30000 if tier == "quick" else 3000000
     for i in range(16):
         specs.append(("roundtrip", nrand // 16, i))
     for i in range(4):
-        specs.append(("multi", (200 if tier == "quick" else 2000) // 4, i))
-    nbin = 1000 if tier == "quick" else 8000
+        specs.append(("multi", (200 if tier == "quick" else 10000) // 4, i))
+    nbin = 1000 if tier == "quick" else 40000
     for i in range(16):
         specs.append(("binary", nbin // 16, i))
     for i in range(8):
-        specs.append(("binary-multi", (400 if tier == "quick" else 3000) // 8, i))
+        specs.append(("binary-multi", (400 if tier == "quick" else 15000) // 8, i))
     return specs
 
 
